@@ -4,6 +4,7 @@ import skgstat
 from skgstat import Variogram
 
 from .common import all_close, quiet, frs, parse_nums
+from .common import guarded
 from . import vario
 
 INFO = dict(
@@ -13,6 +14,7 @@ INFO = dict(
     trusted=[], assumptions=[])
 
 
+@guarded
 def check_case(ctx, case):
     coords = np.array(case['coords'], float)
     vals = np.array(case['table'], float)
